@@ -227,9 +227,9 @@ PROPS = {
         trusted_base=["/verif/translator (go/ast, go/types) and its exemption list", "pkg/* source as parsed from /repo on this run", COMMON_MODEL, "Go race detector (runtime/race) for the search"],
     ),
     "C01": dict(
-        level_text="Coq theorems for every history over the property's alphabet (any number of readers, any order): the serials of the responses emitted so far followed by the serials of the writes still pending are exactly 0..accepted-1 - each accepted write is answered at most once, in write order, none lost; a write that reports zero accepting readers gets no response; responses are joins (errors dominate, empty answers vanish, payloads in link order); positional lookups stay in range. Tied to pkg/packet by driving one real Writer and real Readers through generated histories (the goroutines Reader.Close spawns are parked in a build-tagged gate and delivered as explicit steps) and comparing every return value, the response stream and the requests seen by each reader with the model, plus an identity-based request/response ledger in Go as failing-input oracle for attribution.",
-        level_note="Trusted: Coq kernel + vm_compute; hand transcription of writer.go/reader.go/packet.go; steps are the code's critical sections (their atomicity is C20). Attribution of answers to writes (positional matching) is checked against the ledger on generated histories, not proved in Coq; known finding F-C01-d (stale re-link).",
-        technique="Coq invariant proof over histories (ledger of serials) + vm_compute correspondence + identity-based ledger oracle in Go",
+        level_text="Coq theorems for every history over the property's alphabet (any number of readers, any order): the serials of the responses emitted so far followed by the serials of the writes still pending are exactly 0..accepted-1 - each accepted write is answered at most once, in write order, none lost; a write that reports zero accepting readers gets no response; responses are joins (errors dominate, empty answers vanish, payloads in link order); positional lookups stay in range; ATTRIBUTION: for every history in which no reader is linked again while it still owes answers, the rows pending in a linked reader's column are exactly, oldest first, the writes it still owes, so the row Writer.receive picks for an answer (indexOfHead) is the row of the oldest owed write; the excluded stale re-link is refuted by a six-step witness (finding F-C01-d). Tied to pkg/packet by driving one real Writer and real Readers through generated histories (the goroutines Reader.Close spawns are parked in a build-tagged gate and delivered as explicit steps) and comparing every return value, the response stream and the requests seen by each reader with the model, plus an identity-based request/response ledger in Go as failing-input oracle for attribution.",
+        level_note="Trusted: Coq kernel + vm_compute; hand transcription of writer.go/reader.go/packet.go; steps are the code's critical sections (their atomicity is C20). Attribution of an answer to its ROW is proved (C01_pending_is_owed, C01_answer_attribution); that the emitted response is the join of exactly that row's cells is by construction of flush; drop notices of one reader are interchangeable (any of them fills the oldest pending row of the column). Known finding F-C01-d (stale re-link) is outside ok_hist and refuted by C01_stale_relink_misattributes.",
+        technique="Coq invariant proofs over histories (ledger of serials; pending-column = owed-queue invariant for attribution) + vm_compute correspondence + identity-based ledger oracle in Go",
         quick_n=400, thorough_n=12000, shard=40, mismatch_is_failure=True,
         assumptions=["one writer; operations of the alphabet are atomic (each is a critical section of the code)"],
         trusted_base=["pkg/packet writer.go/reader.go/packet.go transcribed by hand into theories/Packet/Writer.v", COMMON_MODEL, "verif hook at the top of Writer.receive (gate for deferred drop notices)"],
